@@ -14,7 +14,7 @@ export CARGO_NET_OFFLINE=true
 git -C /repo worktree remove --force $WT 2>/dev/null
 git -C /repo worktree add -q --detach $WT HEAD || exit 2
 cd $WT
-git apply $SRC/patch.diff || { echo "PATCH-DOES-NOT-APPLY"; exit 3; }
+git apply $SRC/patch.diff || git apply -3 $SRC/patch.diff || { echo "PATCH-DOES-NOT-APPLY"; exit 3; }
 if [ -f $SRC/seeded_demo.rs ]; then mkdir -p tests; cp $SRC/seeded_demo.rs tests/; fi
 DEMOKIND="--test seeded_demo"
 if [ -f $SRC/demo.diff ] && [ ! -f $SRC/seeded_demo.rs ]; then git apply $SRC/demo.diff || echo "DEMO-DIFF-DOES-NOT-APPLY"; DEMOKIND="--lib seeded_demo"; fi
